@@ -1,5 +1,6 @@
 import Fzf.Model.Algo
 import Fzf.Lemmas.Score
+import Fzf.Lemmas.Exact
 import Fzf.Generated.AlgoConsts
 /-
 C03 — scores follow the documented scoring model.
@@ -81,6 +82,13 @@ theorem C03_calculateScore_on_occurrence (cfg : Cfg) (cs norm : Bool) (t p : Tex
     (hocc : ∀ i, i < p.size → foldRune cfg cs norm (t.getD (s + i) 0) = p.getD i 0) :
     calculateScore cfg cs norm t p s (s + p.size) false = .ok (occScore cfg t s p.size, Option.none) :=
   calculateScore_occ cfg cs norm t p s hfit hocc
+
+/-- **Exact terms (`'term`, every term under --exact) are scored as the occurrence they report**,
+    whichever of several occurrences the search picks and in whichever direction it runs. -/
+theorem C03_exact_scored_as_occurrence (cfg : Cfg) (cs norm fwd : Bool) (t : Text) (isBytes : Bool) (p : Text)
+    (hm : 0 < p.size) (r : Res) (hr : exactMatchNaive cfg cs norm fwd false t isBytes p = .ok r) (hs : 0 ≤ r.start) :
+    r.score = occScore cfg t r.start.toNat p.size :=
+  exactMatchNaive_score cfg cs norm fwd t isBytes p hm r hr hs
 
 /-- **Prefix terms (`^term`) are scored as the occurrence they report.** -/
 theorem C03_prefix_scored_as_occurrence (cfg : Cfg) (cs norm : Bool) (t p : Text) (hp : 0 < p.size) (r : Res)
